@@ -80,6 +80,11 @@ def gen_cases(rng, tier, version):
         for fs in tr[:600]:
             cases.append({"version": version, "turns": 4, "faults": [list(f) for f in fs],
                           "verdicts": rng.choice(verdict_patterns(4))})
+    # hostile exception objects at every single fault site: __str__ raises / __repr__ raises /
+    # unprintable non-string args.  The containment must not depend on being able to print them.
+    for f in faults:
+        for kind in ("XS", "XR", "XA"):
+            cases.append({"version": version, "turns": turns, "faults": [list(f) + [kind]], "verdicts": {}})
     # edge texts: every single fault and every one-rejection pattern once more with falsy / colliding
     # texts (user text == generated text included), cycling through the edge lists
     eu, eg = EDGE_USER, EDGE_GEN[version]
@@ -122,9 +127,10 @@ def coq_case(case, obs):
         t, s = k.split(":")
         # a verdict holds for every occurrence of the site in that turn
         for occ in (0, 1):
-            if [int(t), s, occ] not in case["faults"]:
+            if [int(t), s, occ] not in [f[:3] for f in case["faults"]]:
                 ents.append(f"({int(t)}, {coq_site(s)}, {occ}, OReject)")
-    for t, s, o in case["faults"]:
+    for f in case["faults"]:
+        t, s, o = f[:3]          # every exception object is `ORaise` in the model (see Faults.v, escapes_now)
         ents.append(f"({t}, {coq_site(s)}, {o}, ORaise)")
     # faults first: `find` returns the first match
     ents = [e for e in ents if "ORaise" in e] + [e for e in ents if "OReject" in e]
@@ -304,7 +310,7 @@ def nontrivial(case, obs):
     """a fault actually fired (the site was reached) and at least one later turn was observed"""
     fired = False
     for f in case["faults"]:
-        t, s, o = f
+        t, s, o = f[:3]
         if t < len(obs):
             n = sum(1 for c in obs[t]["calls"] if c[0] == s)
             if n > o:
@@ -370,6 +376,8 @@ def run(tier, seed, replay=None):
             dist["with_rejects"] += 1
         if case.get("texts"):
             dist["edge_texts"] = dist.get("edge_texts", 0) + 1
+        if any(len(f) > 3 for f in case["faults"]):
+            dist["hostile_exceptions"] = dist.get("hostile_exceptions", 0) + 1
         for o in obs:
             k = reply_class(case, o, o["turn"]) if not o["exc"] else "raises"
             k = k if not k.startswith("other") else "other"
